@@ -679,7 +679,14 @@ class AbsInt:
     def _positive_exponent(self, o):
         """the exponent operand is provably > 0: from_u16(p) under a dominating p >= 1 guard, or 1/that, or a positive literal"""
         t = self.res.operand(o)
-        return _pos_term(t)
+        if _pos_term(t):
+            return True
+        # inside a closure (fold / map form of the accumulation) the exponent is a captured variable
+        try:
+            from .prov import subst_upvars
+            return _pos_term(subst_upvars(self.prog, self.b, t))
+        except Exception:
+            return False
 
     def _vector_op(self, p, av, args):
         if not p.startswith("linalg::BaseVector::"):
